@@ -7,18 +7,21 @@ from .. import lib, torsion as tz
 PID = "C18"
 TIERS = {
     "quick": dict(
-        mc=[("MC_TorsionLattice_q_tertiary.cfg", "tertiary.py as implemented, all 19 683 tuples (p2 at origin)", None, 6),
-            ("MC_TorsionLattice_q_v2neg.cfg", "tertiary_v2 AS IMPLEMENTED is exactly the negated cell, all 19 683 tuples", None, 6),
+        mc=[("MC_TorsionLattice_q_tertiary.cfg", "tertiary.py as implemented, all 19 683 tuples (p2 at origin)", None, 5),
+            ("MC_TorsionLattice_q_v2neg.cfg", "tertiary_v2 AS IMPLEMENTED is exactly the negated cell, all 19 683 tuples", None, 5),
+            ("MC_TorsionLattice_q_oracle.cfg", "lemmas about the declarative oracle (reversal, mirror, rotations, translation, gap lemma), all 19 683 tuples", None, 3),
             ("MC_TorsionLattice_q_v2req.cfg", "tertiary_v2 with the REQUIRED m1 = b2 x n1 (slice p1 = (1,0,0))", None, 2),
             ("MC_TorsionLattice_q_v2impl.cfg", "negative control: tertiary_v2 as implemented violates LatticeOctant", "LatticeOctant", 2)],
         gen="Gen_TorsionLattice_q.cfg", dom=(1, "TRUE"), chunks=8, rl=0, phi=1500, corpus=tz.CORPUS_QUICK, aform=tz.AFORM_QUICK),
     "thorough": dict(
         mc=[("MC_TorsionLattice_t_tertiary.cfg", "tertiary.py as implemented, all 531 441 tuples", None, 8),
             ("MC_TorsionLattice_t_v2neg.cfg", "tertiary_v2 AS IMPLEMENTED is exactly the negated cell, all 531 441 tuples", None, 8),
-            ("MC_TorsionLattice_t2_tertiary.cfg", "tertiary.py as implemented, coordinates -2..2, p1 = (1,0,0), p2 at origin (15 625 tuples)", None, 4),
-            ("MC_TorsionLattice_t2_v2neg.cfg", "tertiary_v2 AS IMPLEMENTED is exactly the negated cell, coordinates -2..2, p1 = (1,0,0), p2 at origin", None, 4),
-            ("MC_TorsionLattice_t_v2req.cfg", "tertiary_v2 with the REQUIRED m1 = b2 x n1, all 19 683 tuples", None, 4),
-            ("MC_TorsionLattice_t_v2impl.cfg", "negative control: tertiary_v2 as implemented violates LatticeOctant", "LatticeOctant", 4)],
+            ("MC_TorsionLattice_t2_tertiary.cfg", "tertiary.py as implemented, coordinates -2..2, p1 = (1,0,0), p2 at origin (15 625 tuples)", None, 3),
+            ("MC_TorsionLattice_t2_v2neg.cfg", "tertiary_v2 AS IMPLEMENTED is exactly the negated cell, coordinates -2..2, p1 = (1,0,0), p2 at origin", None, 3),
+            ("MC_TorsionLattice_q_oracle.cfg", "lemmas about the declarative oracle, all 19 683 tuples (p2 at origin)", None, 3),
+            ("MC_TorsionLattice_t2_oracle.cfg", "lemmas about the declarative oracle, coordinates -2..2, p1 = (1,0,0), p2 at origin", None, 3),
+            ("MC_TorsionLattice_t_v2req.cfg", "tertiary_v2 with the REQUIRED m1 = b2 x n1, all 19 683 tuples", None, 3),
+            ("MC_TorsionLattice_t_v2impl.cfg", "negative control: tertiary_v2 as implemented violates LatticeOctant", "LatticeOctant", 3)],
         gen="Gen_TorsionLattice_t.cfg", dom=(1, "FALSE"), chunks=16, rl=60000, phi=120000, corpus=tz.CORPUS_THOROUGH,
         aform=tz.AFORM_THOROUGH),
 }
@@ -78,7 +81,7 @@ def run(tier):
             if expect:
                 rep.add_mc(r, what, negative_control=True)
             else:
-                rep.add_mc(r, what, min_actions=T_ACTIONS if cfg.endswith("tertiary.cfg") else V_ACTIONS)
+                rep.add_mc(r, what, min_actions=T_ACTIONS if cfg.endswith("tertiary.cfg") else () if cfg.endswith("oracle.cfg") else V_ACTIONS)
         pool.shutdown()
         mark("mc_joined")
         rep.cov["phase_end_s"] = phase
